@@ -182,6 +182,16 @@ def _gap_sources(fn) -> List[Tuple[str, ast.AST, ast.AST]]:
     for n in walk_no_nested(fn.node):
         if isinstance(n, ast.Assign) and len(n.targets) == 1 and any(isinstance(x, ast.Call) and call_name(x) in ("shift", "diff") for x in ast.walk(n.value)):
             t = n.targets[0]
+            # F = F.assign(name=<expr>) is the column store F["name"] = <expr> (assign appends the new column last, like the store)
+            v_ = n.value
+            if isinstance(t, ast.Name) and isinstance(v_, ast.Call) and isinstance(v_.func, ast.Attribute) and v_.func.attr == "assign" and \
+                    isinstance(v_.func.value, ast.Name) and v_.func.value.id == t.id and not v_.args and len(v_.keywords) == 1 and v_.keywords[0].arg and \
+                    not isinstance(v_.keywords[0].value, ast.Lambda):
+                kw = v_.keywords[0]
+                n = ast.copy_location(ast.Assign(targets=[ast.Subscript(value=ast.Name(id=t.id, ctx=ast.Load()), slice=ast.Constant(value=kw.arg), ctx=ast.Store())],
+                                                 value=kw.value), n)
+                ast.fix_missing_locations(n)
+                t = n.targets[0]
             # a step of the chain named first (d = col.diff(); F["diff"] = d.shift(-1)) is read in place
             full = inline_locals(fn.node, n.value)
             if unparse(full) != unparse(n.value):
